@@ -149,7 +149,7 @@ func runDupPinned(ctx context.Context, t interface {
 func TestLocalAndPinnedDuplicate(t *testing.T) {
 	r := evid.R()
 	ctx := context.Background()
-	r.Check(t, r.Scale(600, 12000), 5, func(t *rapid.T) {
+	r.Check(t, r.Scale(1200, 12000), 5, func(t *rapid.T) {
 		c, _ := genCase(t)
 		c.Layout = "dup-pinned"
 		chooseRemote(t, c)
